@@ -210,7 +210,7 @@ mutual
 def aeE (σ : String → String) : Expr → Expr → Bool
   | .var x _, .var y _ => σ x == y
   | .prim p, .prim q => eqPrim p q
-  | .tag i _, .tag j _ => i == j
+  | .tag i t, .tag j u => i == j && tagTyName t == tagTyName u
   | .constr c _ a, .constr d _ b => decide (c = d) && aeL σ a b
   | .tuple _ a, .tuple _ b => aeL σ a b
   | .array _ a, .array _ b => aeL σ a b
